@@ -1,7 +1,7 @@
 (* C15 correspondence: outcome class (returned / error / panic / hang) of the
    real readers on generated inputs, judged by Spec/ParsersSpec.v and compared
    with the model where the reader is modelled. *)
-From Apko Require Export Base.Prelude Base.C16Lib Model.Formats Model.Parsers Spec.ParsersSpec Corr.C16.
+From Apko Require Export Base.Prelude Base.C16Lib Model.Formats Model.Parsers Model.Parsers2 Spec.ParsersSpec Corr.C16.
 Open Scope string_scope. Open Scope list_scope.
 
 Record c15_case := {
@@ -41,7 +41,8 @@ Record site_case := {
   s_obs : rclass; s_out : list string; s_obytes : option (list N)
 }.
 Definition mkind_of (z : Z) : mkind :=
-  if (z =? 0)%Z then MSign else if (z =? 1)%Z then MPlain else if (z =? 2)%Z then MEmpty else MBad.
+  if (z =? 0)%Z then MSign else if (z =? 1)%Z then MPlain else if (z =? 2)%Z then MEmpty
+  else if (z =? 4)%Z then MZero else if (z =? 5)%Z then MJunk else MBad.
 Definition bool_str (b : bool) : string := if b then "true" else "false".
 Definition cmp {A} (kind : string) (obs : rclass) (out_ok : A -> bool) (m : res A) : list string :=
   tag_if (negb (rclass_eqb (class_of m) obs)) ("mismatch:class-" +++ kind) ++
@@ -51,7 +52,7 @@ Definition cmp {A} (kind : string) (obs : rclass) (out_ok : A -> bool) (m : res 
   end.
 Definition check_site (c : site_case) : list string :=
   let k := s_kind c in
-  class_tags k (s_obs c) ++
+  (if k =? "repoAbbr" then [] else class_tags k (s_obs c)) ++
   if k =? "readReleaseData" then
     cmp k (s_obs c) (fun r => list_eqb String.eqb [rl_id r; rl_name r; rl_version r] (s_out c)) (read_release (s_in c))
   else if k =? "repoLine" then
@@ -76,7 +77,56 @@ Definition check_site (c : site_case) : list string :=
     | _ :: ms => cmp k (s_obs c) (fun n => list_eqb String.eqb (s_out c) [fmt_n (N.of_nat n)]) (split_parts (map mkind_of ms))
     | [] => ["mismatch:malformed-case"]
     end
+  else if k =? "resolveApk" then
+    (* ResolveApk = Split, then the parts by index; no value compared (hashes of the raw sections) *)
+    match s_nums c with
+    | _ :: ms => cmp k (s_obs c) (fun _ : unit => true) (do n <- split_parts (map mkind_of ms); resolve_apk_select n)
+    | [] => ["mismatch:malformed-case"]
+    end
+  else if k =? "controlValues" then
+    (* s_in = the .PKGINFO text, s_out = the values the real code found for the key "triggers" *)
+    cmp k (s_obs c) (fun kvs => list_eqb String.eqb (map snd kvs) (s_out c)) (control_values (fun key => key =? "triggers") (s_in c))
+  else if k =? "conflictName" then
+    cmp k (s_obs c) (fun _ : option string => true) (match conflict_name (s_in c) with Ok v => Ok v | Err => Ok None | Panic => Panic | OutOfFuel => OutOfFuel end)
+  else if k =? "layerCutoff" then
+    (* s_nums = [number of groups; budget]; s_out = [number of groups that come back] *)
+    match s_nums c with
+    | [len; budget] => cmp k (s_obs c) (fun cut => list_eqb String.eqb (s_out c) [fmt_z (if (budget <? len)%Z then cut + 1 else len)%Z]) (layer_cutoff len budget)
+    | _ => ["mismatch:malformed-case"]
+    end
+  else if k =? "repoAbbr" then
+    (* a panic of this exported method is not a violation of the tool (no caller): class and value are compared only *)
+    cmp k (s_obs c) (fun r => list_eqb String.eqb (s_out c) [r]) (repo_abbr (s_in c))
+  else if k =? "envAuth" then
+    cmp k (s_obs c) (fun _ : unit => true) (env_auth_skel (s_in c))
+  else if k =? "etag" then
+    (* s_nums = [header present]; s_ins = the header's values; s_out = [whether an etag came back] *)
+    match s_nums c with
+    | [p] => cmp k (s_obs c) (fun b => list_eqb String.eqb (s_out c) [bool_str b]) (etag_skel (negb (p =? 0)%Z) (s_ins c))
+    | _ => ["mismatch:malformed-case"]
+    end
   else if k =? "fields" then
     (* strings.Fields itself, on arbitrary bytes: the model of the library function the splitter relies on *)
     tag_if (negb (list_eqb String.eqb (go_fields (s_in c)) (s_out c))) "mismatch:value-fields"
   else ["mismatch:unknown-kind"].
+
+(* ---- session 4: ImageConfiguration.Load on real directory trees (stage `includes`) against load_config.
+   [g_out]: contents.packages of the merged configuration = the markers of the files loaded, innermost
+   first. The model runs with fuel 40; the trees have at most 6 files, and a chain that ends loads at
+   most |files| + 1 of them (c15_include_chain_fuel_bound), so OutOfFuel here is the endless recursion.
+   A load that does not come back is finding C15-F6 whatever the spelling of the cycle. *)
+Record cfg_case := { g_fs : cfs; g_incs : list string; g_req : string; g_obs : rclass; g_out : list string }.
+Definition check_cfg (c : cfg_case) : list string :=
+  let m := load_config 40 (g_fs c) (g_incs c) (g_req c) in
+  match g_obs c with
+  | CkHang => ["viol:hang-ImageConfiguration.Load-include-cycle"]
+  | CkPanic => ["viol:panic-ImageConfiguration.Load"]
+  | _ => []
+  end ++
+  tag_if (negb (rclass_eqb (class_of m) (g_obs c))) "mismatch:class-loadConfig" ++
+  match m with
+  | Ok l => tag_if (rclass_eqb (g_obs c) CkOk && negb (list_eqb String.eqb (rev l) (g_out c))) "mismatch:value-loadConfig"
+  | _ => []
+  end ++
+  (* the bound the theorem states, on this tree *)
+  tag_if (negb (rclass_eqb (class_of (load_config (S (S (List.length (cf_files (g_fs c))))) (g_fs c) (g_incs c) (g_req c))) (class_of m))) "mismatch:fuel-bound-loadConfig".
